@@ -188,7 +188,7 @@ func checkC10(c C10Case, r *Rec) *Violation {
 		where := func() string {
 			return fmt.Sprintf("config=%s stateless=%v\nsrc=%s\ndump=%s\nbinding=%v", maskName(mask), u.Stateless, src, d, describeU(u))
 		}
-		// (ii) compile-time invocations: declared-stateless operators only, nil context
+		// (ii) compile-time invocations: declared-stateless operators only
 		for i, ev := range log.Ev {
 			if !stateless[ev.Op] {
 				return Violf("C10: Compile invoked %s, which is not declared stateless\n%s", ev.String(), where())
@@ -298,7 +298,7 @@ func checkC10(c C10Case, r *Rec) *Violation {
 
 var propC10 = Prop[C10Case]{
 	ID:    "C10",
-	Rule:  "constant-dense typed random trees with custom operators (a drawn subset declared stateless, the rest not; the stateful c_cnt never), failing constant sub-expressions (division by zero, bad version, ill-typed / wrong-count built-in calls, c_fail) under deciding and non-deciding and/or operands and in if branches, x 16 optimization subsets x k = 1..5 repeated evaluations. Oracles: Compile always succeeds; the compile-time call log holds only declared-stateless operators, each with a nil context, and is empty without ConstantFolding; every evaluation performs exactly the custom-operator calls (arguments, results) of R on the dumped tree with the operators' state threaded through; without Reordering a succeeding left-to-right evaluation keeps its value; with only ConstantFolding on, every place where the dump has a constant and the source a sub-tree satisfies the folding rule (validity predicate: folding less is fine). Non-trivial = an undeclared custom operator applied to constants only, or a failing constant sub-expression, or a variable under an and/or that a constant operand decides; distinct by source + stateless list + binding",
+	Rule:  "constant-dense typed random trees with custom operators (a drawn subset declared stateless, the rest not; the stateful c_cnt never), failing constant sub-expressions (division by zero, bad version, ill-typed / wrong-count built-in calls, c_fail) under deciding and non-deciding and/or operands and in if branches, x 16 optimization subsets x k = 1..5 repeated evaluations. Oracles: Compile always succeeds; the compile-time call log holds only declared-stateless operators and is empty without ConstantFolding; every evaluation performs exactly the custom-operator calls (arguments, results) of R on the dumped tree with the operators' state threaded through; without Reordering a succeeding left-to-right evaluation keeps its value; with only ConstantFolding on, every place where the dump has a constant and the source a sub-tree satisfies the folding rule (validity predicate: folding less is fine). Non-trivial = an undeclared custom operator applied to constants only, or a failing constant sub-expression, or a variable under an and/or that a constant operand decides; distinct by source + stateless list + binding",
 	Gen:   genC10,
 	Check: checkC10,
 }
